@@ -71,8 +71,8 @@ theorem knamesActive_keyOk {k : KSt} (h : KeyOk k) {id : String} (hn : knamesAct
       | none => simp [hc] at hn
       | some cur =>
         have hcur : k.active.id = cur.id := h (k.active.id, cur) (kfindL_some hc)
-        simp only [hc, decide_eq_true_eq] at hn
-        rw [hst, hcur, hn]
+        simp only [hc, Bool.and_eq_true, decide_eq_true_eq] at hn
+        rw [hst, hcur, hn.2]
 
 /-- … so there `deleteMode` decides as it did before 00bc77e / c078347 -/
 theorem kdeleteMode_unfixed {k : KSt} (h : KeyOk k) (id : String) (am : Bool) (d : DOpts) :
